@@ -117,7 +117,7 @@ def check_text(case, ev):
         fa, exc = guarded(G.file_anonymizer, cfg, bool(case.get("undo")))
         if exc is not None:
             return core.exc_finding(exc, case, "ctor/")
-        got, exc = guarded(core.run_io, fa, line + "\n")
+        got, exc = guarded(core.run_io, fa, line + "\n", bool(case.get("nonl")))
         if exc is None:
             got = got[:-1] if got.endswith("\n") else got
     if exc is not None:
@@ -248,7 +248,7 @@ def check_pwdline(case, ev):
     fa, exc = guarded(G.file_anonymizer, cfg, undo, anon_pwd=True)
     if exc is not None:
         return core.exc_finding(exc, case, "ctor/")
-    got, exc = guarded(core.run_io, fa, line + "\n")
+    got, exc = guarded(core.run_io, fa, line + "\n", bool(case.get("nonl")))
     if exc is not None:
         return core.exc_finding(exc, case, "text/")
     kinds = [k for _, k in want_at.values()]
@@ -300,7 +300,7 @@ def _text_case(draw):
                     n2 = draw(G.addr_near(G.RFC1918))
                     toks[i] = [n2, draw(G.v4_spelling(n2))]
         prelude = None
-    return {"cfg": cfg, "via": via, "toks": toks, "seps": seps, "prelude": prelude, "undo": draw(st.integers(0, 3)) == 0}
+    return {"cfg": cfg, "via": via, "toks": toks, "seps": seps, "prelude": prelude, "undo": draw(st.integers(0, 3)) == 0, "nonl": draw(st.integers(0, 3)) == 0}
 
 
 @st.composite
@@ -310,7 +310,7 @@ def _pwdline_case(draw):
     addrs = []
     for _ in range(PWD_TEMPLATES[tpl].count("{a}")):
         addrs.append(draw(G.addr_near(cfg["networks"])) if draw(st.integers(0, 3)) else draw(G.u32))
-    return {"cfg": cfg, "tpl": tpl, "addrs": addrs, "mask": draw(st.sampled_from(MASKS)), "secret": draw(st.sampled_from(["Secr3tKey", "c0mmunity-X", "Zx81Qp", "hunter2hunter2"])), "undo": draw(st.integers(0, 3)) == 0}
+    return {"cfg": cfg, "tpl": tpl, "addrs": addrs, "mask": draw(st.sampled_from(MASKS)), "secret": draw(st.sampled_from(["Secr3tKey", "c0mmunity-X", "Zx81Qp", "hunter2hunter2"])), "undo": draw(st.integers(0, 3)) == 0, "nonl": draw(st.integers(0, 3)) == 0}
 
 
 @st.composite
